@@ -167,10 +167,18 @@ theorem gen_dispose_before_reload :
 /-- the documented reload re-reads the FILE, not the table's attributes: they are defaulted from the
     statement's options only where the FileInfo is made anew, never on the reload of a cached table -/
 theorem gen_reload_keeps_attributes :
-    Csvq.Gen.fxCacheLoad.take 12
-      = ["if(isCached){", "dispose", "if(err){", "return", "}", "}",
+    Csvq.Gen.fxCacheLoad.take 15
+      = ["if(isCached){", "dispose", "if(err){", "return", "}", "defer:if(err){", "defer:cache_set", "defer:}", "}",
          "else{", "new_fileinfo", "if(err){", "return", "}", "set_default_attributes"] ∧
     (Csvq.Gen.fxCacheLoad.filter (· = "set_default_attributes")).length = 1 := by decide
+
+/-- a reload that FAILS (lock wait time-out, cancellation, unreadable file) puts the disposed read-only view back:
+    registered by `defer` directly after the dispose, so every later error return passes through it (F98: the view —
+    and with it the attributes of the table's first access — used to be lost; the model's `load` returns `none`
+    with the state unchanged, which is what `step` relies on for a failing statement) -/
+theorem gen_failed_reload_restores_cache :
+    ["dispose", "if(err){", "return", "}", "defer:if(err){", "defer:cache_set", "defer:}", "}", "else{"]
+      <:+: Csvq.Gen.fxCacheLoad := by decide
 
 /-- a load that fails under the lock gives the lock back -/
 theorem gen_failed_locked_load_releases :
